@@ -1,6 +1,7 @@
 import KoordVerif.Common.Proto
 import KoordVerif.Model.C18
 import KoordVerif.Model.C18Usage
+import KoordVerif.Model.C18Pools
 /-
 Driver for C18.  One case = one history of balance rounds on one node pool.
   cfg <abn> <norm> <numberOfNodes> <dryRun> <deviation>        abn = 0 ⇒ AnomalyCondition nil
@@ -21,6 +22,22 @@ Driver for C18.  One case = one history of balance rounds on one node pool.
         on the one node, 1 tryMarkNodesAsNormal, 2 resetNodesAsNormal; output `dst <returned> <state…>` per mark
   cls1 <unsched> <usage> <prodUsage> <low> <high> <plow> <phigh>     classification-only cases (exhaustive
         stream, one resource): output `cls <code>`
+Several node pools (harnesses `config` and `pools`):
+  mtop <dry> <numberOfNodes> <nodeFit> <expirationSeconds> <deviation> <abn> <norm>
+        the v1alpha2 LowNodeLoadArgs document as written by the user; -1 = field absent (abn = -1 ⇒ no
+        anomalyCondition; abn / norm = 0 ⇒ the number is absent inside a present anomalyCondition)
+  mnon <v>     numberOfNodes written as the (negative) value v
+  mpool <idx> <name> <deviation> <abn> <norm>       the idx-th entry of nodePools (name ≥ 1)
+  msel <pool> <n> (<key> <value>)*     nodeSelector.matchLabels of pool (-1 = top level); no line = nil selector
+  mpct <pool> <kind> <n> (<dim> <quarter-percent>)*   kind 0 low 1 high 2 prodLow 3 prodHigh; no line = nil map
+  mwts <pool> <n> (<dim> <weight>)*
+  mconv        output: `ctop`, then per internal pool `cpool` / `csel` / `cpct` / `cwts`, then `cvalid`
+  mp <goneMode>      start of a multi-pool history over the converted pools (goneMode 1: the evictor's filter
+                     rejects a pod once it has been evicted successfully in this Balance call)
+  nlab <id> <n> (<key> <value>)*       labels of EVERY node of the cluster (with or without usable metric)
+  porder <seg> <node> <pod>*           observed processing order inside the seg-th pool that had nodes
+  mgo          one Balance call over all pools; output: per pool with nodes `seg <k> <node ids>` and its
+               `evict` lines, then the `det` lines and `end`
 Output per round: `use` (measured usage / prod usage, -1 = resource not in the map), `thr`/`cls` per node, `evict` per Evict call, `det` per cached detector, `end`.
 The percent→quantity step `int64(float64(pct)*0.01*float64(cap))` and the deviation-mode averages
 use Lean's runtime Float (IEEE binary64, as Go).
@@ -168,6 +185,10 @@ structure Acc where
   bad : Bool := false
   dcond : Option Cond := none
   dds : Dets := []
+  va : Option VArgs := none                       -- the v1alpha2 document being read
+  multi : Option Bool := none                     -- multi-pool history started; the value is goneMode
+  labels : List (Nat × Labels) := []              -- every node of the cluster, reversed
+  porders : List (Nat × Nat × List Nat) := []     -- (segment, node, pods), reversed
 
 /-- sortNodesByUsage: the usage map has the tracked resources and always `pods`; capacity per
     `CapUse.nodeScore`. -/
@@ -198,7 +219,15 @@ def exceedRaw (dims : List Nat) (n : Node) : List Int :=
     | some i => let x := u.getD i 0 - h.getD i 0; if x > 0 then x else 0
     | none => 0
 
-def runRoundLines (a : Acc) (dc : DrvCfg) : Acc :=
+structure PoolRun where
+  lines   : List String   -- use / thr / cls
+  evs     : List Ev
+  st      : St
+  exit    : Nat
+  sources : List Nat      -- processedNodes.Insert: the nodes classified `high` / `prodHigh`, when the pool got to the end
+
+/-- processOneNodePool on the nodes / pods / metrics / orders held in `a`. -/
+def runPool (a : Acc) (dc : DrvCfg) : PoolRun :=
   let dims := trackedDims dc.pcts
   let wpods := a.pods.reverse
   let wms := a.metrics.reverse
@@ -237,9 +266,103 @@ def runRoundLines (a : Acc) (dc : DrvCfg) : Acc :=
     nodes.map (fun n => s!"use {n.id} {showInts (useVec n.usage ++ useVec n.prodUsage)}")
     ++ ns.map (fun n => s!"thr {n.id} {showInts (n.low ++ n.high ++ n.plow ++ n.phigh)}")
     ++ ns.map (fun n => s!"cls {n.id} {(classify n).code}")
-    ++ ro.evs.map (fun e => s!"evict {e.node} {e.pod} {b2i e.ok}")
-    ++ showDets 0 st.nodeDet ++ showDets 1 st.prodDet ++ ["end"]
-  { a with st := st, nodes := [], pods := [], metrics := [], orders := [], out := a.out ++ lines.toArray }
+  ⟨lines, ro.evs, st, ro.exit,
+   if ro.exit = 0 then (ofClass .high ns).map (·.id) ++ (ofClass .prodHigh ns).map (·.id) else []⟩
+
+def evLine (e : Ev) : String := s!"evict {e.node} {e.pod} {b2i e.ok}"
+
+def runRoundLines (a : Acc) (dc : DrvCfg) : Acc :=
+  let r := runPool a dc
+  let lines : List String :=
+    r.lines ++ r.evs.map evLine
+    ++ showDets 0 r.st.nodeDet ++ showDets 1 r.st.prodDet ++ ["end"]
+  { a with st := r.st, nodes := [], pods := [], metrics := [], orders := [], out := a.out ++ lines.toArray }
+
+
+/-! ### several node pools -/
+
+def pairs? : List Int → Option (List (Nat × Int))
+  | [] => some []
+  | [_] => none
+  | k :: v :: rest => if k < 0 then none else (pairs? rest).map ((k.toNat, v) :: ·)
+
+/-- `<n> (<k> <v>)*` -/
+def counted? (xs : List Int) : Option (List (Nat × Int)) :=
+  match xs with
+  | [] => none
+  | n :: rest => match pairs? rest with
+    | some ps => if (ps.length : Int) = n then some ps else none
+    | none => none
+
+def sortedMap (ps : List (Nat × Int)) : IMap := ps.foldl (fun m kv => IMap.set m kv.1 kv.2) []
+
+def optB (v : Int) : Option Bool := if v < 0 then none else some (v ≠ 0)
+def optI (v : Int) : Option Int := if v < 0 then none else some v
+def optCond (abn norm : Int) : Option ACond := if abn < 0 then none else some ⟨abn.toNat, norm.toNat⟩
+
+def showMap (m : IMap) : String :=
+  showInts ((m.length : Int) :: m.foldr (fun kv acc => (kv.1 : Int) :: kv.2 :: acc) [])
+
+def showLabels (l : Labels) : String :=
+  showInts ((l.length : Int) :: l.foldr (fun kv acc => (kv.1 : Int) :: (kv.2 : Int) :: acc) [])
+
+def convLines (va : VArgs) : List String :=
+  let (dry, non, nf, exp) := convertTop va
+  let pools := convertPools va
+  let idx := List.range pools.length
+  let poolLines (ip : Nat × CPool) : List String :=
+    let (i, p) := ip
+    let c := p.cond.getD ⟨0, 0⟩
+    [s!"cpool {i} {p.name} {b2i p.dev} {if p.cond.isSome then (c.abn : Int) else -1} {if p.cond.isSome then (c.norm : Int) else -1}"]
+    ++ (match p.sel with | some l => [s!"csel {i} {showLabels l}"] | none => [])
+    ++ ([(0, p.low), (1, p.high), (2, p.plow), (3, p.phigh)].filterMap fun (km : Nat × Option IMap) =>
+          km.2.map fun m => s!"cpct {i} {km.1} {showMap m}")
+    ++ (match p.wts with | some m => [s!"cwts {i} {showMap m}"] | none => [])
+  [s!"ctop {b2i dry} {non} {b2i nf} {exp}"] ++ (idx.zip pools).flatMap poolLines ++ [s!"cvalid {b2i (validArgs va)}"]
+
+def poolCfg (va : VArgs) (p : CPool) : DrvCfg :=
+  let (dry, non, _, _) := convertTop va
+  let cond : Option Cond := p.cond.map fun c => ⟨c.abn, c.norm⟩
+  let pct (m : Option IMap) (d : Nat) : Option Float := (m.bind (IMap.get · d)).map quarter
+  { cfg := ⟨cond, non, dry⟩, dev := p.dev,
+    pcts := (List.range 3).map fun d => ⟨pct p.low d, pct p.high d, pct p.plow d, pct p.phigh d⟩,
+    wts := some ((List.range 3).map fun d => ((p.wts.getD []).get d).getD 0) }
+
+structure BalAcc where
+  st : St
+  seg : Nat := 0
+  gone : List Nat := []
+  lines : Array String := #[]
+
+/-- processOneNodePool as `balancePools` wants it: the evictor's filter rejects the pods that are gone. -/
+def runPoolOn (a : Acc) (va : VArgs) (gone : Bool) (_i : Nat) (p : CPool) (ids : List Nat) (b : BalAcc) :
+    PoolOut BalAcc Ev :=
+  let pods := a.pods.map fun wp =>
+    if b.gone.contains wp.id then { wp with filt1 := false, filt2 := false } else wp
+  let orders := (a.porders.filter (·.1 = b.seg)).map fun x => (x.2.1, x.2.2)
+  let a' := { a with st := b.st, total := ids.length, nodes := a.nodes.filter (fun n => ids.contains n.id),
+                     pods := pods, orders := orders }
+  let r := runPool a' (poolCfg va p)
+  let evicted := (r.evs.filter (·.ok)).map (·.pod)
+  let lines := #[s!"seg {b.seg} {showNats ids}"] ++ (r.evs.map evLine).toArray
+  ⟨{ st := r.st, seg := b.seg + 1, gone := if gone then b.gone ++ evicted else b.gone, lines := b.lines ++ lines },
+   r.evs, r.sources⟩
+
+/-- LowNodeLoad.Balance over the converted pools. -/
+def runBalance (a : Acc) (va : VArgs) (gone : Bool) : Acc :=
+  let pools := convertPools va
+  let (b, _) := balancePools (·.sel) (runPoolOn a va gone) a.labels.reverse 0 pools { st := a.st } []
+  let cond : Option Cond := (topPool va).cond.map fun c => ⟨c.abn, c.norm⟩
+  let st : St := ⟨observeDets cond b.st.nodeDet, observeDets cond b.st.prodDet⟩
+  let lines := b.lines ++ (showDets 0 st.nodeDet ++ showDets 1 st.prodDet ++ ["end"]).toArray
+  { a with st := st, nodes := [], pods := [], metrics := [], orders := [], porders := [], labels := [],
+           out := a.out ++ lines }
+
+def emptyVPool (name : Nat) (dev : Bool) (cond : Option ACond) : VPool :=
+  ⟨name, none, dev, none, none, none, none, none, cond⟩
+
+def setAt {α} (l : List α) (i : Nat) (f : α → α) : List α :=
+  (List.range l.length).zip l |>.map fun (j, x) => if j = i then f x else x
 
 def step (a : Acc) (line : String) : Acc :=
   if a.bad then a else
@@ -287,6 +410,86 @@ def step (a : Acc) (line : String) : Acc :=
     | some [w0, w1, w2], some dc =>
       if dc.wts.isSome || w0 < 0 || w1 < 0 || w2 < 0 then fail else
       { a with dc := some { dc with wts := some [w0, w1, w2] } }
+    | _, _ => fail
+  | "mtop" :: rest =>
+    match ints? rest with
+    | some [dry, non, nf, exp, dev, abn, norm] =>
+      { a with va := some ⟨optB dry, optI non, optB nf, optI exp, none, optB dev, none, none, none, none, none,
+                           optCond abn norm, []⟩ }
+    | _ => fail
+  | "mnon" :: rest =>
+    match ints? rest, a.va with
+    | some [v], some va => { a with va := some { va with non := some v } }
+    | _, _ => fail
+  | "mpool" :: rest =>
+    match ints? rest, a.va with
+    | some [idx, name, dev, abn, norm], some va =>
+      if idx.toNat ≠ va.pools.length || idx < 0 || name < 1 then fail else
+      { a with va := some { va with pools := va.pools ++ [emptyVPool name.toNat (dev ≠ 0) (optCond abn norm)] } }
+    | _, _ => fail
+  | "msel" :: rest =>
+    match ints? rest, a.va with
+    | some (pool :: xs), some va =>
+      match counted? xs with
+      | some ps =>
+        let l : Labels := ps.map fun kv => (kv.1, kv.2.toNat)
+        if pool < 0 then { a with va := some { va with sel := some l } }
+        else if pool.toNat < va.pools.length then
+          { a with va := some { va with pools := setAt va.pools pool.toNat fun p => { p with sel := some l } } }
+        else fail
+      | none => fail
+    | _, _ => fail
+  | "mpct" :: rest =>
+    match ints? rest, a.va with
+    | some (pool :: kind :: xs), some va =>
+      match counted? xs with
+      | some ps =>
+        let m := some (sortedMap ps)
+        if kind < 0 || kind > 3 then fail
+        else if pool < 0 then
+          { a with va := some (if kind = 0 then { va with low := m } else if kind = 1 then { va with high := m }
+                               else if kind = 2 then { va with plow := m } else { va with phigh := m }) }
+        else if pool.toNat < va.pools.length then
+          { a with va := some { va with pools := setAt va.pools pool.toNat fun p =>
+              if kind = 0 then { p with low := m } else if kind = 1 then { p with high := m }
+              else if kind = 2 then { p with plow := m } else { p with phigh := m } } }
+        else fail
+      | none => fail
+    | _, _ => fail
+  | "mwts" :: rest =>
+    match ints? rest, a.va with
+    | some (pool :: xs), some va =>
+      match counted? xs with
+      | some ps =>
+        let m := some (sortedMap ps)
+        if pool < 0 then { a with va := some { va with wts := m } }
+        else if pool.toNat < va.pools.length then
+          { a with va := some { va with pools := setAt va.pools pool.toNat fun p => { p with wts := m } } }
+        else fail
+      | none => fail
+    | _, _ => fail
+  | ["mconv"] =>
+    match a.va with
+    | some va => { a with out := a.out ++ (convLines va).toArray }
+    | none => fail
+  | "mp" :: rest =>
+    match ints? rest, a.va with
+    | some [g], some va => if validArgs va then { a with multi := some (g ≠ 0) } else fail
+    | _, _ => fail
+  | "nlab" :: rest =>
+    match ints? rest with
+    | some (id :: xs) =>
+      match counted? xs with
+      | some ps => if id < 0 then fail else { a with labels := (id.toNat, ps.map fun kv => (kv.1, kv.2.toNat)) :: a.labels }
+      | none => fail
+    | _ => fail
+  | "porder" :: rest =>
+    match nats? rest with
+    | some (sg :: n :: ps) => { a with porders := (sg, n, ps) :: a.porders }
+    | _ => fail
+  | ["mgo"] =>
+    match a.va, a.multi with
+    | some va, some g => runBalance a va g
     | _, _ => fail
   | "round" :: rest =>
     match ints? rest with
